@@ -50,6 +50,8 @@ package ez
 //@          && rec_enableVerification_cnt == old(rec_enableVerification_cnt) && arg0 == basecfg
 //@   at call sourcewrap.NewTransformingDecoder:
 //@     assert C14_C18_alias_mangler_is_first: len(arg1) >= 1 && isType(cell(selem(arg1, 0), "Iface"), "*transform.AliasMangler")
+//@   at call fileSource(:
+//@     assert C14_C18_the_file_decoder_is_always_alias_wrapped: isType(arg1, "*sourcewrap.transformingDecoder")
 //@   at call blank.SetSource:
 //@     assume rely_config_watched_the_blank: blank.t != nil && blank.wa != nil
 //@     assert C18_file_set_before_verification: rec_enableVerification_cnt == old(rec_enableVerification_cnt)
@@ -68,6 +70,8 @@ package ez
 //@   ensures C18_file_failure_is_returned: rec_blankSetSource_cnt == old(rec_blankSetSource_cnt) + 1
 //@        && rec_blankSetSource_res0[old(rec_blankSetSource_cnt)] != nil ==> err != nil && rec_enableVerification_cnt == old(rec_enableVerification_cnt)
 //@   ensures C18_at_most_one_file_source: rec_blankSetSource_cnt <= old(rec_blankSetSource_cnt) + 1
+//@   ensures C18_one_event_is_drained_whenever_a_file_was_integrated: err == nil && rec_blankSetSource_cnt == old(rec_blankSetSource_cnt) + 1 ==>
+//@        rec_dialsEvents_cnt == old(rec_dialsEvents_cnt) + 1 && rec_dialsEvents_arg0[old(rec_dialsEvents_cnt)] == d
 //@   ensures C18_blank_released_iff_not_watching: rec_dialsConfig_cnt == old(rec_dialsConfig_cnt) + 1 && rec_dialsConfig_res1[old(rec_dialsConfig_cnt)] == nil ==>
 //@        rec_blankDone_cnt == old(rec_blankDone_cnt) + b2i(!params.WatchConfigFile)
 
